@@ -606,7 +606,7 @@ func (fr *Frame) moduleCall(st *State, fn *ssa.Function, rt types.Type, args []V
 		if len(args) == 2 && isMod(1) {
 			return set(F.Mul(F.I64(2), ld(1)))
 		}
-	case "Inverse", "InverseUnitary":
+	case "Inverse":
 		if len(args) == 2 && isMod(1) {
 			return set(F.Neg(ld(1)))
 		}
@@ -614,7 +614,7 @@ func (fr *Frame) moduleCall(st *State, fn *ssa.Function, rt types.Type, args []V
 		if len(args) == 1 {
 			return set(F.I64(0))
 		}
-	case "Conjugate", "Frobenius", "FrobeniusSquare", "FrobeniusCube", "FrobeniusQuad", "Expt", "ExptHalf", "Expc1", "Expc2":
+	case "Conjugate", "InverseUnitary", "Frobenius", "FrobeniusSquare", "FrobeniusCube", "FrobeniusQuad", "Expt", "ExptHalf", "Expc1", "Expc2":
 		if len(args) == 2 && isMod(1) {
 			sym := func(name string) *Term {
 				if g, ok := st.ghosts[name]; ok {
@@ -628,7 +628,10 @@ func (fr *Frame) moduleCall(st *State, fn *ssa.Function, rt types.Type, args []V
 			defer func() { F.Distribute = saved }()
 			x := ld(1)
 			switch fn.Name() {
-			case "Conjugate":
+			case "Conjugate", "InverseUnitary":
+				// InverseUnitary IS the conjugation: the inverse only on the cyclotomic subgroup, where a contract may
+				// say so (ghost mconj = -1, as the final exponentiations do after their easy part); elsewhere the
+				// multiplier stays symbolic, so that an exponentiation that "inverts" a general element with it fails
 				return set(F.Mul(sym("mconj"), x))
 			case "Frobenius":
 				return set(F.Mul(sym("mfrob"), x))
